@@ -129,6 +129,10 @@ F-C12-1, F-C18-1).
   and re-confirmed (demo 0/1, 929 tests, check).
 * Runs against a scratch tree (`OPTILAND_REPO`) and replays used to overwrite `evidence/<id>.json`; they now write to
   `.scratch/evidence/` so that committed evidence always describes a full run against `/repo` itself.
+* C15 thorough (after the round-6 additions changed the random stream): on a nearly afocal lens (f = 3.4e4 mm) under
+  a marginal-ray solve the recorded `F2` operand was -7.5e-12 against 0 on the fresh lens — a difference of lengths
+  of the size of the focal length, at rounding level.  The absolute tolerance of the row re-evaluation now scales
+  with the largest operand magnitude of the row (1e-15 × scale).
 * `hash(name)` seeded the rays of C06 (randomised per process): replaced by `zlib.crc32`.  C07 and C06 replays did not
   reproduce the recorded case (no work seed / configuration in the case): fixed, which the corpus builder exposed.
 
@@ -137,7 +141,7 @@ F-C12-1, F-C18-1).
 {nseeds} changes (rounds 1–3: two per property; round 4: two more per property with the instruction "no cache or
 memoisation: one arithmetic / sign / index / branch slip on unusual inputs, one ordering / aliasing / in-place /
 two-call interaction"; round 5: two more with the instruction "a code path ordinary use does not take: one through a
-non-default argument / option / wrapper class, one triggered by an unusual but legitimate value or shape") were produced by fresh sub-agents that saw only the property text and a scratch worktree; each
+non-default argument / option / wrapper class, one triggered by an unusual but legitimate value or shape"; round 6: two more with the instruction "self-consistent errors: the library still agrees with itself, only an independent reference reveals the error — one shared constant / exponent / unit / sign / index base, one wrong choice among candidate values") were produced by fresh sub-agents that saw only the property text and a scratch worktree; each
 was confirmed by me in another scratch worktree (patch applies, the demonstration exits 1 with the change and 0
 without, 929 tests pass) and is kept as `seeded/<id>/` (`patch.diff`, `demo.py`, `notes.md`, `meta.json` with the
 check's own output).  One change (C11-3) was discarded: its demonstration no longer fails on the repaired tree
@@ -181,6 +185,18 @@ What the misses had in common, and the generator / harness changes they led to (
   closed-form singlet (C06-6), vignetted axial bundles (C05-5), a tilted flat image surface (C09-6), single-column
   polynomial tables (C19-6).  C15-5 was missed by seed 0 and reported by an extra seed of the source-drift
   escalation (§11.10).
+* *Round 6 (self-consistent errors)*: 34 of the 38 changes were reported by the checks as they stood, because every
+  predicate compares with an independent reference (the Lean model run at `Float`, a separately traced ray, the data
+  file) and none with a second route through the library; many re-made slips of earlier rounds and fell to corpus
+  cases.  New value classes: the numerical aperture of an object immersed in glass (C03-7), the exact
+  vignetting-interpolation predicate between field points (C03-8), odd PSF grid sizes in the stigmatic systems
+  (C06-7), physical apertures on the image / object surface under `scale_system` (C07-8).  Missed at first: a
+  least-squares run that meets a one-sided limit (C14-8; seed 0 had none that became active — now every second
+  problem is also run with a single limit close to the start on either side), a sensitivity run on a `Tolerancing`
+  object whose range samplers had been used before (C15-8; now 60% of the sensitivity set-ups are repeated after
+  random `apply()`/`reset()` calls), pickups / solves addressing surfaces from the image with negative indices whose
+  stored form only matters at the next `update()` (C19-7; negative indices are now generated and the original and
+  every reloaded lens receive the same later edits + `update()` before their behaviour is compared again).
 * *Harness robustness*: C10-3 (a fit returning 36 instead of 37 coefficients) crashed the harness (exit 2) instead of
   being reported; the shape is now a checked clause.
 * *Seed dependence*: C09-3/4 were caught for seeds 0–2 and missed for seed 3 of the quick tier (150 cases); this led to
